@@ -1259,6 +1259,47 @@ def rule_R7iter(text, applied):
     return text
 
 
+def rule_R7pairs(text, applied):
+    """`for (A, B) in E.iter() {` over a Vec/slice of pairs -> increment-first index loop (continue-safe):
+    `let mut pN_: usize = 0; while pN_ < E.len() { let (A, B) = (&E[pN_].0, &E[pN_].1); pN_ += 1;` -- the std
+    definition of iterating a slice of pairs by reference with a destructuring pattern."""
+    cnt = 0
+    while True:
+        m_text = mask(text)
+        m = re.search(r"\bfor\s*\(\s*(\w+)\s*,\s*(\w+)\s*\)\s+in\s+([\w\.]+?)\s*\.\s*iter\(\)\s*\{", m_text)
+        if not m:
+            break
+        a_, b_, coll = m.group(1), m.group(2), "".join(m.group(3).split())
+        iv = f"p{cnt}_"
+        head = f"let mut {iv}: usize = 0; while {iv} < {coll}.len() {{ let ({a_}, {b_}) = (&{coll}[{iv}].0, &{coll}[{iv}].1); {iv} += 1;"
+        text = text[:m.start()] + _keep_newlines(text[m.start():m.end()], head) + text[m.end():]
+        cnt += 1
+    if cnt:
+        applied.append(f"R7pairsx{cnt}")
+    return text
+
+
+def rule_R7indexmap(text, applied):
+    """`for (&K, V) in E.iter() {` over an indexmap::IndexMap -> increment-first index loop over its entries in
+    insertion order (IndexMap::iter is documented to yield the entries in index order, get_index(i) the i-th):
+    `let mut mN_: usize = 0; while mN_ < E.len() { let (kN_, V) = E.get_index(mN_).unwrap(); let K = *kN_; mN_ += 1;`"""
+    cnt = 0
+    while True:
+        m_text = mask(text)
+        m = re.search(r"\bfor\s*\(\s*&\s*(\w+)\s*,\s*(\w+)\s*\)\s+in\s+([\w\.]+?)\s*\.\s*iter\(\)\s*\{", m_text)
+        if not m:
+            break
+        k_, v_, coll = m.group(1), m.group(2), "".join(m.group(3).split())
+        iv = f"m{cnt}_"
+        head = (f"let mut {iv}: usize = 0; while {iv} < {coll}.len() {{ let (k{cnt}_, {v_}) = {coll}.get_index({iv}).unwrap(); "
+                f"let {k_} = *k{cnt}_; {iv} += 1;")
+        text = text[:m.start()] + _keep_newlines(text[m.start():m.end()], head) + text[m.end():]
+        cnt += 1
+    if cnt:
+        applied.append(f"R7indexmapx{cnt}")
+    return text
+
+
 def rule_R8bitget(text, applied):
     """`E.get(I).as_deref().copied()` on a BitVec -> `E.vget(I)` (stub method: Some(bit) in range, None beyond)."""
     t, n = _sub_masked(text, r"\.\s*get\(([^\)]+)\)\s*\.\s*as_deref\(\)\s*\.\s*copied\(\)", lambda m, s: f".vget({m.group(1).strip()})")
@@ -1533,7 +1574,7 @@ RULES = {
     "R25": rule_R25, "R7optake": rule_R7optake,
     "R23": rule_R23, "R24": rule_R24,
     "R16push": rule_R16push, "R22": rule_R22, "R22flat": rule_R22flat,
-    "R20": rule_R20, "R21": rule_R21, "R7stackrev": rule_R7stackrev,
+    "R20": rule_R20, "R21": rule_R21, "R7stackrev": rule_R7stackrev, "R7pairs": rule_R7pairs, "R7indexmap": rule_R7indexmap,
     "R1": rule_R1, "R2": rule_R2, "R2ref": rule_R2ref, "R3": rule_R3, "R4": rule_R4, "R5": rule_R5,
     "R8max": rule_R8max, "R8cmpmax": rule_R8cmpmax, "R8resize_none": rule_R8resize_none, "R9": rule_R9, "R8position": rule_R8position, "R8rotate": rule_R8rotate, "R12refcell": rule_R12refcell,
     "R8slice": rule_R8slice, "R7iter": rule_R7iter, "R8bitget": rule_R8bitget, "R8intonext": rule_R8intonext, "R8rposition": rule_R8rposition, "R8contains": rule_R8contains, "R12cell": rule_R12cell, "R8resize_veccap": rule_R8resize_veccap, "R8collectid": rule_R8collectid, "R8index": rule_R8index, "subst": rule_subst,
@@ -1613,6 +1654,46 @@ def loops_in(m_text, lo, hi):
     return res
 
 
+def apply_callblocks(src, selector, start, end, raw, sections, emitter):
+    """`//@callblock NAME [last]` sections: the statement range that was extracted before as block NAME (same file,
+    inside this item's span) is replaced by the section's text -- the call of the block's wrapper.  The replaced
+    range is exactly the block's range (the same anchors that produced the block), so block + remaining text tile
+    the item mechanically; the only hand-written text is the call.  With `last` the block must be the last
+    statement(s) of its enclosing braces (needed when the wrapper turns `continue`/fall-through into `return`)."""
+    reps = []
+    for key in list(sections):
+        if not key.startswith("callblock "):
+            continue
+        toks = key.split()
+        bn = toks[1]
+        its = [it for it in emitter.items if it.get("block") and it["name"] == bn and it["file"] == src.rel]
+        if not its:
+            raise ExtractError(f"{selector}: callblock {bn}: block not extracted before this item")
+        a, b = its[-1]["repo_span"]
+        if not (start <= a < b <= end):
+            raise ExtractError(f"{selector}: callblock {bn}: the block does not lie inside this item (lost anchor)")
+        if "last" in toks[2:]:
+            k = b
+            while k < end and src.masked[k] in " \t\n":
+                k += 1
+            if src.masked[k] != "}":
+                raise ExtractError(f"{selector}: callblock {bn}: statements follow the block inside its enclosing braces (construct outside the composed subset)")
+        call = " ".join(sections[key].split())
+        reps.append((a, b, call, bn))
+        del sections[key]
+    reps.sort()
+    for (a, b, _, bn), (a2, b2, _, bn2) in zip(reps, reps[1:]):
+        if a2 < b:
+            raise ExtractError(f"{selector}: callblock {bn2} overlaps {bn}")
+    out = raw
+    for a, b, call, bn in reversed(reps):
+        nl = src.text[a:b].count("\n")
+        lead = src.text[a:b][:len(src.text[a:b]) - len(src.text[a:b].lstrip(" \t"))]
+        out = out[:a - start] + lead + call + "\n" * nl + out[b - start:]
+    return out, [f"callblock({bn})" for _, _, _, bn in reps]
+
+
+
 def build_fn(src: Source, selector, opts, sections, emitter: Emitter, unit_rules_log):
     start, ob, end, kind, hdr = src.locate_fn(selector)
     raw = src.text[start:end]
@@ -1620,8 +1701,9 @@ def build_fn(src: Source, selector, opts, sections, emitter: Emitter, unit_rules
     indent = len(src.text[start:]) - len(src.text[start:].lstrip(" "))
     sha = hashlib.sha256(raw.encode()).hexdigest()
 
-    text = strip_attrs_and_docs(raw)
-    applied = []
+    raw_cb, cb_applied = apply_callblocks(src, selector, start, end, raw, sections, emitter)
+    text = strip_attrs_and_docs(raw_cb)
+    applied = list(cb_applied)
     for r in ALWAYS:
         text = r(text, applied)
     for rn in opts.get("rules", []):
